@@ -6,8 +6,13 @@
     FormatText / FormatCSV parsed back.
       corr_ok : Model.Legacy reproduces the observed output bit for bit;
       prop_ok : the observed output satisfies the specification predicates of
-                the property, computed from the raw input records. *)
-From Perf Require Import Base.Bytes Base.Sx Base.B64 Base.SxF Model.StatsF Model.Legacy.
+                the property, computed from the raw input records.
+    A HISTORY case ("hist") carries one collection reporting several times:
+    per stage the configurations added, the oracle tables and observations of
+    that Tables() call, and collection and tables observed again after the
+    Format calls.  Every stage is judged as a report on the records added so
+    far ([hist_prop_ok]); the model side is Model.LegacyHist.hist_reports. *)
+From Perf Require Import Base.Bytes Base.Sx Base.B64 Base.SxF Model.StatsF Model.Legacy Model.LegacyHist.
 Local Open Scope Z_scope.
 
 (** * decoding *)
@@ -141,6 +146,53 @@ Definition decode (s : sx) : option case :=
   | _ => None
   end.
 
+(** ** histories: one collection, several reports *)
+Record hstage := mkHStage {
+  hs_added : list (bytes * list result);      (** configurations added before this Tables() call *)
+  hs_ptab : list pentry; hs_logtab : list (b64 * b64); hs_exptab : list (b64 * b64);
+  hs_formats : list Z;                        (** Format functions applied afterwards: 0 text, 1 CSV, 2 HTML *)
+  hs_panic : bool;
+  hs_coll : obs_coll; hs_tables : list table; hs_fmt : obs_fmt;
+  hs_post_coll : obs_coll;                    (** the collection after the Format calls *)
+  hs_post_tables : list table                 (** the same tables read again after the Format calls *)
+}.
+
+Definition as_hstage (s : sx) : option hstage :=
+  match s with
+  | SL [ad; SL [pt; lt; et]; fs; ob; po] =>
+      do ad <- as_list (as_pair as_b (as_list as_result)) ad;
+      do pt <- as_list as_pentry pt;
+      do lt <- as_list (as_pair as_f64 as_f64) lt;
+      do et <- as_list (as_pair as_f64 as_f64) et;
+      do fs <- as_list as_z fs;
+      match ob, po with
+      | SL [SZ 1], _ =>
+          Some (mkHStage ad pt lt et fs true (mkObsColl [] [] [] [] 0) [] (mkObsFmt true [] true [])
+                         (mkObsColl [] [] [] [] 0) [])
+      | SL [SZ 0; oc; ts; fm], SL [pc; pts] =>
+          do oc <- as_obs_coll oc; do ts <- as_list as_table ts; do fm <- as_obs_fmt fm;
+          do pc <- as_obs_coll pc; do pts <- as_list as_table pts;
+          Some (mkHStage ad pt lt et fs false oc ts fm pc pts)
+      | _, _ => None
+      end
+  | _ => None
+  end.
+
+Inductive kase :=
+| KOne (c : case)
+| KHist (o : opts) (stages : list hstage).
+
+Definition s_hist : bytes := bs "hist".
+
+Definition decode_any (s : sx) : option kase :=
+  match s with
+  | SL [SB tag; o; sts] =>
+      if beq tag s_hist then
+        do o <- as_opts o; do sts <- as_list as_hstage sts; Some (KHist o sts)
+      else None
+  | _ => option_map KOne (decode s)
+  end.
+
 (** * oracles *)
 Definition f64s_same := list_eqb b64_same.
 Definition s_miss : bytes := bs "oracle-miss".
@@ -222,24 +274,62 @@ Definition fmt_ok (norange : bool) (ts : list table) (f : obs_fmt) : bool :=
 
 (** * the model run *)
 Definition model_coll (c : case) : coll := build (o_split (k_opts c)) (k_configs c).
-Definition model_tables (c : case) : option (list table) :=
+Definition model_tables_of (mc : coll) (c : case) : option (list table) :=
   tables (dtest_of (k_ptab c)) (flookup (k_logtab c)) (flookup (k_exptab c))
-         (o_alpha (k_opts c)) (o_order (k_opts c)) (o_geomean (k_opts c)) (model_coll c).
+         (o_alpha (k_opts c)) (o_order (k_opts c)) (o_geomean (k_opts c)) mc.
+Definition model_tables (c : case) : option (list table) := model_tables_of (model_coll c) c.
 
 Definition bm_eqb (a b : bytes * list bytes) : bool := beq (fst a) (fst b) && blist_eqb (snd a) (snd b).
 
-Definition corr_ok (c : case) : bool :=
+Definition coll_corr (mc : coll) (oc : obs_coll) : bool :=
+  blist_eqb (c_configs mc) (oc_configs oc)
+  && blist_eqb (c_groups mc) (oc_groups oc)
+  && blist_eqb (c_units mc) (oc_units oc)
+  && list_eqb bm_eqb (map (fun g => (g, benchmarks_of mc g)) (c_groups mc)) (oc_benchmarks oc)
+  && (Z.of_nat (length (c_metrics mc)) =? oc_nmetrics oc).
+
+(** [post]: collection and tables observed again later (histories) *)
+Definition corr_ok_with (mc : coll) (c : case) (post : option (obs_coll * list table)) : bool :=
   negb (k_panic c) &&
-  let mc := model_coll c in
-  blist_eqb (c_configs mc) (oc_configs (k_coll c))
-  && blist_eqb (c_groups mc) (oc_groups (k_coll c))
-  && blist_eqb (c_units mc) (oc_units (k_coll c))
-  && list_eqb bm_eqb (map (fun g => (g, benchmarks_of mc g)) (c_groups mc)) (oc_benchmarks (k_coll c))
-  && (Z.of_nat (length (c_metrics mc)) =? oc_nmetrics (k_coll c))
-  && match model_tables c with
+  coll_corr mc (k_coll c)
+  && match model_tables_of mc c with
      | Some ts => list_eqb table_eqb ts (k_tables c) && fmt_ok (o_norange (k_opts c)) ts (k_fmt c)
+                  && match post with
+                     | Some (pc, pts) => coll_corr mc pc && list_eqb table_eqb ts pts
+                     | None => true
+                     end
      | None => false
      end.
+
+Definition corr_ok (c : case) : bool := corr_ok_with (model_coll c) c None.
+
+(** ** histories *)
+Definition hist_ops (sts : list hstage) : list hop :=
+  concat (map (fun st => map HAdd (hs_added st) ++ HTables :: map HFormat (hs_formats st)) sts).
+
+(** the stages as reports: stage i with the configurations added so far *)
+Fixpoint stage_cases (o : opts) (acc : list (bytes * list result)) (sts : list hstage) : list (case * hstage) :=
+  match sts with
+  | [] => []
+  | st :: sts' =>
+      let acc' := acc ++ hs_added st in
+      (mkCase o acc' (hs_ptab st) (hs_logtab st) (hs_exptab st) (hs_panic st)
+              (hs_coll st) (hs_tables st) (hs_fmt st), st) :: stage_cases o acc' sts'
+  end.
+
+Fixpoint all2 {A B} (f : A -> B -> bool) (a : list A) (b : list B) : bool :=
+  match a, b with
+  | [], [] => true
+  | x :: a', y :: b' => f x y && all2 f a' b'
+  | _, _ => false
+  end.
+
+(** the model runs the history itself: Model.LegacyHist.hist_reports gives the
+    collection each Tables() call reports on *)
+Definition hist_corr_ok (o : opts) (sts : list hstage) : bool :=
+  all2 (fun mc cs => corr_ok_with mc (fst cs) (Some (hs_post_coll (snd cs), hs_post_tables (snd cs))))
+       (hist_reports (o_split o) empty_coll (hist_ops sts))
+       (stage_cases o [] sts).
 
 (** * specification predicates on the observed output *)
 
@@ -466,8 +556,21 @@ Section Spec.
     && fmt_ok (o_norange o) (k_tables c) (k_fmt c).
 End Spec.
 
+(** a history: every Tables() call is judged as a report on the records added
+    so far, and after the Format calls the collection still is the one those
+    records prescribe and the tables are unchanged *)
+Definition stage_prop_ok (cs : case * hstage) : bool :=
+  let '(c, st) := cs in
+  prop_ok c
+  && coll_spec c (hs_post_coll st)
+  && list_eqb table_eqb (hs_post_tables st) (k_tables c).
+
+Definition hist_prop_ok (o : opts) (sts : list hstage) : bool :=
+  forallb stage_prop_ok (stage_cases o [] sts).
+
 Definition run_case (s : sx) : N :=
-  match decode s with
-  | Some c => code_of (corr_ok c) (prop_ok c)
+  match decode_any s with
+  | Some (KOne c) => code_of (corr_ok c) (prop_ok c)
+  | Some (KHist o sts) => code_of (hist_corr_ok o sts) (hist_prop_ok o sts)
   | None => code_undecodable
   end.
